@@ -169,6 +169,31 @@ def run(ctx, model_ok):
                 ops.append({"op": "exec", "lang": "en", "text": text, "expect": exp, "scale": float(Fraction(amt))})
         hist_cases.append(ops)
 
+    # every alias / symbol spelling of update_currency, between two evaluations of the same ordered pair (both directions): what was
+    # evaluated before the update must not be remembered behind it, however the update names the currency
+    for a_name, tgt in sorted(alias.items()):
+        T = cur[tgt]["code"]
+        if T not in rates:
+            continue
+        other = "EUR" if T == "USD" else "USD"
+        for name in (a_name, a_name.upper(), T.lower()):
+            cr = dict(rates)
+            ops = []
+
+            def ev(A, B, amt="10"):
+                ops.append({"op": "exec", "lang": "en", "text": f"{O.dec(amt)} {A.lower()} to {B.lower()}",
+                            "expect": ("M", B, Fraction(amt) * cr[B] / cr[A]), "scale": float(Fraction(amt))})
+            ev(other, T)
+            ev(T, other)
+            for v in ("10", "0.25"):
+                target = read_currency(name)
+                ops.append({"op": "rate", "cur": name, "v": v, "code": target, "expect_ret": target is not None})
+                if target is not None:
+                    cr[target] = Fraction(v)
+                ev(other, T)
+                ev(T, other)
+            hist_cases.append(ops)
+
     # ---- run plain cases
     res = C.run_impl([{"op": "exec", "lang": "en", "text": c["text"]} for c in cases])
     for c, r in zip(cases, res):
